@@ -21,10 +21,14 @@ def run(chk, replay=None):
         paths = [(0, 0, rnd.choice([2, 3])), (1, rnd.choice([1, 2]), 2), (rnd.choice([-3, 7, 10 ** 6]), rnd.choice([-5, 10 ** 6]), 2), (0, 0, 0)]
         return dict(paths=paths, vmap=dict(n=2, pairs=[(0, 0), (1, 1), (-2, 0), (5, 2)]), nrun=0, nolog=True)
     jobs = c07.make_jobs(chk, 4 if quick else 20, extra=extra)
-    for i, j in enumerate(jobs):
-        # every other generated graph has a supervisor that updates the delay models carried in its own inputs: its returned step state must be
-        # what the next step starts from on every API path (in particular on the step(gs, step_state, output) override path)
-        if j["source"] == "generate" and i % 2 == 0: j["cfg"]["nodes"][j["cfg"]["sup"]]["adaptive"] = True
+    gi = 0
+    for j in jobs:
+        if j["source"] != "generate": continue
+        # both: a supervisor that updates the delay models carried in its own inputs (its returned step state must be what the next step starts
+        # from on every API path, in particular on the step(gs, step_state, output) override path); and params drawn from the rng given to init() and
+        # used by the steps, with a partial override dict re-used across two init() calls
+        j["cfg"]["nodes"][j["cfg"]["sup"]]["adaptive"] = True
+        j["cfg"]["rng_params"] = True
     for j in jobs: j["tmax"] = min(j.get("tmax") or 48, 48)
     res = cl.run_jobs(jobs, nproc=4 if quick else 10, per_job_timeout=400)
     for j in jobs:
@@ -37,7 +41,7 @@ def run(chk, replay=None):
             chk.violation("compiled-api-fails:" + e.split(":")[0], f"{e[:300]}", dict(case, tb=r.get("tb", "")[-800:])); continue
         E = len(r["raw"]); maxstep = r["max_steps"] + 1
         for key, d in r["paths"].items():
-            if key == "vmap": continue
+            if key in ("vmap", "params"): continue
             eps, step, n = map(int, key.split(":"))
             feats = [j["source"], j["mode"]] + (["eps-out-of-range"] if not 0 <= eps < E else []) + (["step-out-of-range"] if not 0 <= step < maxstep else []) + [f"n={n}"]
             chk.case((repr(cfg), j["mode"], j["prune"], key), feats, dict(case, path=key) if len(chk.samples) < 2 else None)
@@ -53,6 +57,17 @@ def run(chk, replay=None):
                 if a in d and b in d:
                     x = diff(d[a], d[b])
                     if x: chk.violation(f"api-paths-differ:{a}-vs-{b}", f"start (eps={eps}, step={step}), n={n}: {x}", case)
+        pr = r["paths"].get("params")
+        if pr:
+            chk.case((repr(cfg), j["mode"], j["prune"], "params"), ["params-override"], None)
+            if pr["reused"].get(pr["other"]) != 5 or pr["fresh"].get(pr["other"]) != 5:
+                chk.violation("params-override-not-seen", f"init(params={{{pr['other']}: 5}}) gives params {pr['fresh']}", case)
+            if pr["reused"] != pr["fresh"]:
+                chk.violation("init-depends-on-earlier-init", f"init(rng2, params=P) after init(rng1, params=P) with the same dict P gives params {pr['reused']}, "
+                              f"with a fresh copy of P {pr['fresh']} (P now has keys {pr['keys_after']})", case)
+            else:
+                x = diff(pr["run_reused"], pr["run_fresh"])
+                if x: chk.violation("init-depends-on-earlier-init", f"two run() steps after the two inits differ: {x}", case)
         vm = r["paths"].get("vmap")
         if vm:
             chk.case((repr(cfg), j["mode"], j["prune"], "vmap"), ["vmap"], None)
